@@ -289,7 +289,7 @@ def _job(args):
 
 
 def write_replay(prop_id, task, viol):
-    d = os.path.join(VERIF, 'replays', prop_id)
+    d = os.path.join(os.environ.get('VF_OUT', VERIF), 'replays', prop_id)
     os.makedirs(d, exist_ok=True)
     body = {'property': prop_id, 'task': task, 'key': viol['key'],
             'message': viol['message'], 'case': viol['case']}
@@ -297,7 +297,8 @@ def write_replay(prop_id, task, viol):
     path = os.path.join(d, name)
     with open(path, 'w') as f:
         json.dump(body, f, indent=1, sort_keys=True, default=repr)
-    return os.path.relpath(path, VERIF)
+    return os.path.relpath(path, VERIF) if path.startswith(VERIF + os.sep) \
+        else path
 
 
 def do_replay(mod, path, open_keys=()):
@@ -532,8 +533,9 @@ def main(argv=None):
     except Exception as e:
         print('HARNESS-ERROR: evidence does not validate:', e)
         return 2
-    os.makedirs(os.path.join(VERIF, 'evidence'), exist_ok=True)
-    with open(os.path.join(VERIF, 'evidence', prop_id + '.json'), 'w') as f:
+    evdir = os.path.join(os.environ.get('VF_OUT', VERIF), 'evidence')
+    os.makedirs(evdir, exist_ok=True)
+    with open(os.path.join(evdir, prop_id + '.json'), 'w') as f:
         json.dump(ev, f, indent=1, sort_keys=True, default=repr)
         f.write('\n')
 
